@@ -376,6 +376,7 @@ fn corpus_fixture() -> Fixture {
     f.add_edge(a[1], b[1], "R", vec![]);
     f.add_edge(a[2], b[2], "S", vec![("ew".into(), Value::Int64(3))]);
     f.add_edge(b[0], c[0], "S", vec![]);
+    f.add_edge(a[1], c[0], "R", vec![("ew".into(), Value::Int64(2))]);
     f
 }
 
@@ -468,13 +469,32 @@ fn treat(out: &mut Out, fx: &mut Fixture, kind: &str, text: &str, plan: &Logical
     let g = fx.coq();
     let mut case = Case { kind: kind.to_string(), input: format!("{} | {}", text, fx.desc), ..Default::default() };
     case.imp = ref_canon[..ref_canon.len().min(400)].to_string();
+    // the plans are bound once (let pb := before in let p1 := .. in ..) and referred to by name
+    let mut lets = String::new();
     let afters_coq = if modelled {
-        Some(coq::list(afters.iter().map(|(m, a)| format!("({}, {})", coq::nat(*m as usize), a.clone().unwrap()))))
+        let b = before.clone().unwrap();
+        lets.push_str(&format!("let pb := {} in ", b));
+        let mut names: Vec<(String, String)> = vec![(b, "pb".to_string())];
+        let mut items = vec![];
+        for (m, a) in &afters {
+            let a = a.clone().unwrap();
+            let name = match names.iter().find(|(t, _)| *t == a) {
+                Some((_, n)) => n.clone(),
+                None => {
+                    let n = format!("p{}", names.len());
+                    lets.push_str(&format!("let {} := {} in ", n, a));
+                    names.push((a, n.clone()));
+                    n
+                }
+            };
+            items.push(format!("({}, {})", coq::nat(*m as usize), name));
+        }
+        Some(coq::list(items))
     } else {
         None
     };
     if let (Some(b), Some(a)) = (&before, &afters_coq) {
-        case.coq = Some(format!("chk_opts {} {}", b, a));
+        case.coq = Some(format!("{}chk_opts pb {}", lets, a));
         case.show = Some(format!("show_opt true {}", b));
         let changed = afters.iter().any(|(_, x)| x.as_ref() != before.as_ref());
         case.nontrivial = changed;
@@ -489,10 +509,11 @@ fn treat(out: &mut Out, fx: &mut Fixture, kind: &str, text: &str, plan: &Logical
         case.oracle = Oracle::Fail;
         case.msg = format!("reference (no rewrites, fresh statistics): {} ;; differing: {}", &ref_canon[..ref_canon.len().min(300)], diffs.join(" ;; "));
         if let (Some(b), Some(a)) = (&before, &afters_coq) {
-            // class decided in Coq; the harness only says which finding it believes applies
-            let is_plan = kind.starts_with("plan");
-            case.kid = Some(if is_plan { "C09-K2".into() } else { "C09-K1".into() });
-            case.kcoq = Some(if is_plan { format!("k_opts {} {}", b, a) } else { format!("k_push_opts {} {}", b, a) });
+            // the class is decided in Coq: `k_class` = 0 (none) | 1 | 2 | 3 | 4; checks/c09.py turns the
+            // number into the finding id before the standard decision procedure runs
+            case.kid = Some("C09-K?".into());
+            let _ = b;
+            case.kcoq = Some(format!("{}k_class pb {}", lets, a));
         }
         tags.push("oracle-fail".into());
     }
@@ -566,6 +587,9 @@ struct QGen<'a> {
     ints: Vec<String>,
     next: usize,
     tags: Vec<String>,
+    edge_atom: bool,
+    joins: bool,
+    two_hop: bool,
 }
 
 impl<'a> QGen<'a> {
@@ -585,6 +609,11 @@ impl<'a> QGen<'a> {
             5..=8 => 1,
             _ => 2,
         };
+        if hops >= 2 {
+            // consecutive single-hop expands run through the factorized chain operator (C10's subject)
+            self.two_hop = true;
+            self.tags.push("two-hop".into());
+        }
         for _ in 0..hops {
             let b = self.fresh("n");
             let ev = if self.r.chance(1, 2) { Some(self.fresh("e")) } else { None };
@@ -643,6 +672,7 @@ impl<'a> QGen<'a> {
             7 if !self.edges.is_empty() => {
                 let e = self.edges[self.r.below(self.edges.len() as u64) as usize].clone();
                 self.tags.push("atom-edge".into());
+                self.edge_atom = true;
                 format!("{}.ew {} {}", e, self.cmp(), self.r.range(0, 3))
             }
             8 if !self.ints.is_empty() => {
@@ -656,12 +686,9 @@ impl<'a> QGen<'a> {
             }
             10 => {
                 let x = pick_node(self);
-                self.tags.push("atom-isnull".into());
-                if self.r.chance(1, 2) {
-                    format!("{}.{} IS NULL", x, self.nprop())
-                } else {
-                    format!("{}.{} IS NOT NULL", x, self.nprop())
-                }
+                let y = pick_node(self);
+                self.tags.push("atom-arith".into());
+                format!("{}.{} * 2 {} {}.{} + {}", x, self.nprop(), self.cmp(), y, self.nprop(), self.r.range(0, 2))
             }
             _ => {
                 let x = pick_node(self);
@@ -687,7 +714,7 @@ impl<'a> QGen<'a> {
 
 /// Returns (GQL text, ordered on a total key?, rows comparable with sem?, tags)
 fn gen_query(r: &mut Rng) -> (String, bool, bool, Vec<String>) {
-    let mut g = QGen { r, nodes: vec![], edges: vec![], ints: vec![], next: 0, tags: vec![] };
+    let mut g = QGen { r, nodes: vec![], edges: vec![], ints: vec![], next: 0, tags: vec![], edge_atom: false, joins: false, two_hop: false };
     let mut q = String::new();
     let mut sem_ok = true;
     let nclauses = match g.r.below(10) {
@@ -711,6 +738,10 @@ fn gen_query(r: &mut Rng) -> (String, bool, bool, Vec<String>) {
         }
         if np == 2 {
             g.tags.push("comma-pattern".into());
+            g.joins = true;
+        }
+        if ci > 0 {
+            g.joins = true;
         }
         q.push_str(&ps.join(", "));
         q.push(' ');
@@ -787,9 +818,7 @@ fn gen_query(r: &mut Rng) -> (String, bool, bool, Vec<String>) {
             items.push(format!("{}.{}", x, g.r.pick(&["v", "w"])));
             g.tags.push("group-by".into());
         }
-        if g.r.chance(1, 2) {
-            items.push("count(*) AS c".to_string());
-        } else {
+        {
             let x = g.nodes[g.r.below(g.nodes.len() as u64) as usize].name.clone();
             items.push(format!("count({}) AS c", x));
         }
@@ -839,6 +868,14 @@ fn gen_query(r: &mut Rng) -> (String, bool, bool, Vec<String>) {
         // engine does not define: only the oracle and the plan correspondence are checked
         sem_ok = false;
         ordered = false;
+    }
+    if g.edge_atom && g.joins {
+        // x.p on an edge variable above a join is answered from a node by the engine (finding K4)
+        sem_ok = false;
+        g.tags.push("edge-atom-above-join".into());
+    }
+    if g.two_hop {
+        sem_ok = false;
     }
     let tags = g.tags.clone();
     (q, ordered, sem_ok, tags)
@@ -960,7 +997,13 @@ fn gen_plan(r: &mut Rng) -> (LogicalPlan, String, Vec<String>) {
 fn corpus(out: &mut Out) {
     let mut fx = corpus_fixture();
     // C09-K1: the witness of push_filters_refuted (a predicate over a comma pattern and a later MATCH)
-    let qs: [(&str, bool, bool); 14] = [
+    let qs: [(&str, bool, bool); 18] = [
+        // C09-K3: push-down stacks the WHERE on the label filter of the expand target
+        ("MATCH (c:C) MATCH (a:A)-[:R]->(b:B) WHERE a.v = 1 RETURN a.u, b.u, c.u", false, true),
+        ("MATCH (a:A {v: 1}) WHERE a.u > 0 RETURN a.v, a.u", false, true),
+        // C09-K4: an edge property above / below a join
+        ("MATCH (a:A)-[r:R]->(b) MATCH (c:C) WHERE r.ew > 1 RETURN a.u, b.u, c.u", false, false),
+        ("MATCH (a:A)-[r:R]->(b) WHERE r.ew > 1 RETURN a.u, b.u", false, true),
         ("MATCH (a:A), (b:B) MATCH (c:C) WHERE a.v = c.v RETURN a.v, b.v, c.v", false, true),
         ("MATCH (c:C) MATCH (a:A), (b:B) WHERE a.v = c.v RETURN a.v, b.v, c.v", false, true),
         ("MATCH (a:A) OPTIONAL MATCH (a)-[:R]->(b:B) MATCH (c:C) WHERE a.v = c.v RETURN a.v, c.v", false, false),
